@@ -3,7 +3,7 @@
  "name": "inline_read",
  "props": ["C09"],
  "level": "U",
- "tier": "wip",
+ "tier": "quick",
  "harness": "h_inline_read",
  "enforce": ["ext2fs_file_read_inline_data"],
  "functions": ["lib/ext2fs/fileio.c:ext2fs_file_read_inline_data"],
@@ -35,7 +35,7 @@
  "name": "inline_write",
  "props": ["C09"],
  "level": "U",
- "tier": "wip",
+ "tier": "quick",
  "harness": "h_inline_write",
  "enforce": ["ext2fs_file_write_inline_data"],
  "replace": ["ext2fs_file_set_size2"],
